@@ -99,10 +99,36 @@ def rule_fd_bound(ctx, cfg, F):
         for r in tr.roots_of_operand(t["args"][fd_arg]):
             if r.kind in ("call", "local") and "Vec<i32>" in f.local_ty(_root_local(f, tr, t["args"][fd_arg])):
                 vec_locals.add(_root_local(f, tr, t["args"][fd_arg]))
-    if len(vec_locals) != 1:
-        R.violate("anchor-missing:fd-vector", "descriptor list is not a single Vec<c_int> local (%s)" % sorted(vec_locals), f.path, config=cfg)
+    # the vector may travel through moves (a helper returning Result<Vec<c_int>, E> used with `?`): one class of locals
+    vclass = set(vec_locals)
+    changed = True
+    while changed:
+        changed = False
+        for b_ in f.live_blocks():
+            for st_ in f.stmts(b_):
+                if st_["s"] != "assign" or st_["lhs"].get("p") and "Vec<i32>" not in f.local_ty(st_["lhs"]["l"]):
+                    continue
+                if "Vec<i32>" not in f.local_ty(st_["lhs"]["l"]) or f.local_ty(st_["lhs"]["l"]).startswith("&"):
+                    continue
+                srcs = [op_place(o)["l"] for o in st_["rv"].get("a", []) if op_place(o) is not None and "Vec<i32>" in f.local_ty(op_place(o)["l"]) and not f.local_ty(op_place(o)["l"]).startswith("&")]
+                if st_["rv"]["r"] in ("use", "agg", "cast") and srcs:
+                    grp = set(srcs) | {st_["lhs"]["l"]}
+                    if grp & vclass and not grp <= vclass:
+                        vclass |= grp
+                        changed = True
+            t_ = f.term(b_)
+            if t_["t"] == "call" and not t_["dest"].get("p") and "Vec<i32>" in f.local_ty(t_["dest"]["l"]) and not f.local_ty(t_["dest"]["l"]).startswith("&") and \
+                    strip_generics(t_.get("callee") or "") in ("std::ops::Try::branch", "std::convert::From::from", "std::convert::Into::into"):
+                srcs = [op_local(o) for o in t_["args"] if op_local(o) is not None and "Vec<i32>" in f.local_ty(op_local(o))]
+                grp = set(srcs) | {t_["dest"]["l"]}
+                if grp & vclass and not grp <= vclass:
+                    vclass |= grp
+                    changed = True
+    plain = {l for l in vclass if f.local_ty(l).startswith("std::vec::Vec<i32")}
+    if not plain:
+        R.violate("anchor-missing:fd-vector", "descriptor list is not a Vec<c_int> local (%s)" % sorted(vec_locals), f.path, config=cfg)
         return
-    V = next(iter(vec_locals))
+    V = min(plain)
     ex = Explorer(f)
     worst = {}
     loop_blocks = set()
@@ -111,7 +137,7 @@ def rule_fd_bound(ctx, cfg, F):
 
     def is_V(operand):
         l = _root_local(f, tr, operand)
-        return l == V
+        return l in vclass
 
     def step(b, st, env):
         lo, hi, snaps = st
@@ -126,7 +152,7 @@ def rule_fd_bound(ctx, cfg, F):
         t = f.term(b)
         if t["t"] == "call":
             name = strip_generics(callee_name(t))
-            if name in ("std::vec::Vec::new", "std::vec::Vec::with_capacity") and t["dest"]["l"] == V:
+            if name in ("std::vec::Vec::new", "std::vec::Vec::with_capacity") and t["dest"]["l"] in vclass:
                 lo, hi = 0, 0
             elif name == "std::vec::Vec::push" and is_V(t["args"][0]):
                 if b in loop_blocks:
@@ -339,13 +365,38 @@ def _fallible_calls(F, f):
     return out
 
 
+def _ref_target(f, l):
+    """the (non-reference) local a reference local points to: follows copies of the reference and reborrows only"""
+    seen = set()
+    while l is not None and l not in seen:
+        seen.add(l)
+        if not (f.local_ty(l).startswith("&") or f.local_ty(l).startswith("*")):
+            return l
+        ds = [d for d in f.defs().get(l, []) if not f.is_cleanup(d[0]) and not (d[1] is not None and d[2].get("lhs", {}).get("p"))]
+        if len(ds) != 1 or ds[0][1] is None:
+            return None
+        rv = ds[0][2]["rv"]
+        if rv["r"] in ("ref", "raw"):
+            l = rv["pl"]["l"]
+        elif rv["r"] in ("use", "cast") and op_place(rv["a"][0]) is not None:
+            l = rv["a"][0]["pl"]["l"]
+        else:
+            return None
+    return None
+
+
+def _is_estimate_ref(f, ty):
+    """`&mut usize`, or `&mut` of a small crate newtype around it (SendBufSize(usize))"""
+    return ty.startswith("&mut usize") or (ty.startswith("&mut platform::") and "Vec<" not in ty and "Os" not in ty.split("::")[-1][:2])
+
+
 def explore_send(F, f):
     """one exploration of the platform send: error propagation, retry guard, position discipline"""
     tr = Tracer(f)
     ex = Explorer(f)
     fall = _fallible_calls(F, f)
     # the downsize function: callee whose first argument is &mut usize and whose Result gates the retry
-    downsize_blocks = {b for b, t in f.calls() if t["args"] and op_local(t["args"][0]) is not None and f.local_ty(op_local(t["args"][0])).startswith("&mut usize")
+    downsize_blocks = {b for b, t in f.calls() if t["args"] and op_local(t["args"][0]) is not None and _is_estimate_ref(f, f.local_ty(op_local(t["args"][0])))
                        and strip_generics(callee_name(t)).startswith("platform::")}
     # loop position: the local compared with len(data) in a loop condition
     pos = _position_local(f, tr)
@@ -381,8 +432,8 @@ def explore_send(F, f):
         if pend is not None:
             # the estimate was reduced on this path (downsize() inlined into the body): `*p = x / c`
             for s_ in f.stmts(b):
-                if s_["s"] == "assign" and s_["lhs"].get("p") == ["*"] and s_["rv"]["r"] == "bin" and s_["rv"]["op"] == "Div" and (op_const(s_["rv"]["a"][1]) or 0) >= 2 \
-                        and "usize" in f.local_ty(s_["lhs"]["l"]):
+                if s_["s"] == "assign" and (s_["lhs"].get("p") or [None])[0] == "*" and s_["rv"]["r"] == "bin" and s_["rv"]["op"] == "Div" and (op_const(s_["rv"]["a"][1]) or 0) >= 2 \
+                        and f.local_ty(s_["lhs"]["l"]).startswith("&mut"):
                     shrunk_here = True
                     down = True if down is None else down
         if pend is not None and pos is not None and b in loop_blocks:
@@ -557,9 +608,10 @@ def rule_retry_shrink(ctx, cfg, F):
     cands = set()
     for b in f.live_blocks():
         for st in f.stmts(b):
-            if st["s"] == "assign" and st["rv"]["r"] == "ref" and "Mut" in st["rv"].get("m", "") and not st["rv"]["pl"].get("p") and f.local_ty(st["rv"]["pl"]["l"]) == "usize":
+            if st["s"] == "assign" and st["rv"]["r"] == "ref" and "Mut" in st["rv"].get("m", "") and not st["rv"]["pl"].get("p") and \
+                    (f.local_ty(st["rv"]["pl"]["l"]) == "usize" or _is_estimate_ref(f, "&mut " + f.local_ty(st["rv"]["pl"]["l"]))):
                 cands.add(st["rv"]["pl"]["l"])
-    dcalls = [(b, t) for b, t in f.calls() if t["args"] and op_local(t["args"][0]) is not None and f.local_ty(op_local(t["args"][0])).startswith("&mut usize")
+    dcalls = [(b, t) for b, t in f.calls() if t["args"] and op_local(t["args"][0]) is not None and _is_estimate_ref(f, f.local_ty(op_local(t["args"][0])))
               and strip_generics(callee_name(t)).startswith("platform::")]
     est = {_root_local(f, tr, t["args"][0]) for b, t in dcalls} or cands
     est = {e for e in est if e is not None}
@@ -577,9 +629,10 @@ def rule_retry_shrink(ctx, cfg, F):
     for b, t in dcalls:
         g = F.fns.get(t.get("resolved") or t.get("callee")) or getattr(F, "all_fns", {}).get(t.get("resolved") or t.get("callee"))
         if g is not None and all(g is not x[0] for x in bodies):
-            bodies.append((g, lambda st, g=g: st["lhs"]["l"] == 1 and st["lhs"].get("p") == ["*"], lambda op, g=g: any(r.kind == "param" and r.id == 2 for r in Tracer(g).roots_of_operand(op))))
+            bodies.append((g, lambda st, g=g: st["lhs"]["l"] == 1 and (st["lhs"].get("p") or [None])[0] == "*", lambda op, g=g: any(r.kind == "param" and r.id == 2 for r in Tracer(g).roots_of_operand(op))))
     # stores through a borrow of E in send itself (helper inlined)
-    bodies.append((f, lambda st: st["lhs"].get("p") == ["*"] and _root_local(f, tr, {"k": "cp", "pl": {"l": st["lhs"]["l"]}}) in est, lambda op: True))
+    bodies.append((f, lambda st: (st["lhs"].get("p") or [None])[0] == "*" and f.local_ty(st["lhs"]["l"]).startswith("&mut") and
+                   (_ref_target(f, st["lhs"]["l"]) in est or _root_local(f, tr, {"k": "cp", "pl": {"l": st["lhs"]["l"]}}) in est), lambda op: True))
     n_stores = 0
     ok = True
     for g, is_store, is_sent in bodies:
@@ -632,7 +685,13 @@ def rule_retry_fds(ctx, cfg, F):
         n += 1
         arg = next((a for i, a in enumerate(t["args"]) if ff.local_ty(i + 1) == "&[i32]"), None)
         blk = _def_call(f, arg)
-        if blk is not None and any("RangeFull" in g for g in f.term(blk).get("generics", [])) and "Vec<i32>" in f.local_ty(_root_local(f, Tracer(f), arg)):
+        whole = False
+        if blk is not None:
+            tt = f.term(blk)
+            dn, rn = strip_generics(tt.get("callee") or ""), strip_generics(callee_name(tt))
+            whole = any("RangeFull" in g for g in tt.get("generics", [])) or dn in ("std::ops::Deref::deref", "std::convert::AsRef::as_ref", "std::borrow::Borrow::borrow") \
+                or rn in ("std::vec::Vec::as_slice", "std::vec::Vec::as_mut_slice")
+        if whole and "Vec<i32>" in f.local_ty(_root_local(f, Tracer(f), arg)):
             R.ok("first-fragment call passes fds[..]", f.loc(b), cfg)
         else:
             R.violate("%s:partial-descriptor-list:%s" % (f.path, _site_role(f, b)), "a first-fragment transmission does not pass the whole descriptor list", f.path, f.loc(b), config=cfg)
